@@ -198,9 +198,9 @@ def audit(prop_id, theorems, allowed_axioms=()):
     with open(p, "w") as f:
         f.write("From Aplang Require Import Props.%s.\n" % prop_id)
         for t in theorems:
-            f.write('Goal True. idtac "BEGIN %s". exact I. Qed.\n' % t)
+            f.write('Goal unit. idtac "BEGIN %s". exact tt. Qed.\n' % t)
             f.write("Print Assumptions %s.\n" % t)
-        f.write('Goal True. idtac "END". exact I. Qed.\n')
+        f.write('Goal unit. idtac "END". exact tt. Qed.\n')
     rc, out = coqc_file(p)
     problems = []
     if rc != 0:
@@ -328,9 +328,9 @@ def run_coq_cases(prop_id, imports, items, per_shard=400, timeout=1500, prelude=
             f.write("Definition cases : list (N * text * string) := [\n")
             f.write(";\n".join("(%d%%N, %s, %s)" % (i, items[i][0], coq_string(items[i][1])) for i in range(lo, hi)))
             f.write("].\n")
-            f.write('Goal True. idtac "MISM-BEGIN". exact I. Qed.\n')
+            f.write('Goal unit. idtac "MISM-BEGIN". exact tt. Qed.\n')
             f.write("Eval vm_compute in mism cases.\n")
-            f.write('Goal True. idtac "MISM-END". exact I. Qed.\n')
+            f.write('Goal unit. idtac "MISM-END". exact tt. Qed.\n')
         t = time.time()
         rc, out = coqc_file(p, timeout)
         return k, rc, out, time.time() - t
@@ -343,7 +343,10 @@ def run_coq_cases(prop_id, imports, items, per_shard=400, timeout=1500, prelude=
             if rc != 0 or "MISM-BEGIN" not in out or "MISM-END" not in out:
                 raise CheckBroken("coqc failed on case shard %d of %s:\n%s" % (k, prop_id, out[-2500:]))
             body = out.split("MISM-BEGIN")[1].split("MISM-END")[0]
-            mism += [int(x) for x in re.findall(r"(\d+)%N", body)]
+            m = re.search(r"=\s*\[(.*?)\]\s*:\s*list N", body, re.S)
+            if not m:
+                raise CheckBroken("cannot parse the mismatch list printed by Coq:\n" + body[-500:])
+            mism += [int(x) for x in re.findall(r"\d+", m.group(1).replace("%N", ""))]
     observed = {}
     if mism:
         show = sorted(mism)[:40]
@@ -351,9 +354,9 @@ def run_coq_cases(prop_id, imports, items, per_shard=400, timeout=1500, prelude=
         with open(p, "w") as f:
             f.write(header)
             for i in show:
-                f.write('Goal True. idtac "OBS-BEGIN %d". exact I. Qed.\n' % i)
+                f.write('Goal unit. idtac "OBS-BEGIN %d". exact tt. Qed.\n' % i)
                 f.write("Eval vm_compute in bytes_string (%s).\n" % items[i][0])
-            f.write('Goal True. idtac "OBS-END". exact I. Qed.\n')
+            f.write('Goal unit. idtac "OBS-END". exact tt. Qed.\n')
         rc, out = coqc_file(p, timeout)
         for m in re.finditer(r"OBS-BEGIN (\d+)\n(.*?)(?=OBS-BEGIN|OBS-END)", out, re.S):
             txt = m.group(2)
